@@ -512,6 +512,16 @@ theorem layout_eraseStmt {s : VM} (h : Layout s) (name : Bytes) : Layout (eraseS
     · have := h.arCur; simp only; omega
     · have := h.room; simp only [varCurrent] at this ⊢; omega
 
+theorem layout_eraseList {s : VM} (h : Layout s) (names : List Bytes) : Layout (eraseList names s).state := by
+  induction names generalizing s with
+  | nil => exact h
+  | cons n r ih =>
+    have h1 := layout_eraseStmt h n
+    simp only [eraseList]
+    cases he : eraseStmt n s with
+    | error x => rw [he] at h1; exact h1
+    | ok s1 => rw [he] at h1; exact ih h1
+
 theorem step_state (s : VM) (op : Op) : (step s op).1 = (stmt op s).state := by
   unfold step
   cases stmt op s with
@@ -524,7 +534,7 @@ theorem layout_step {s : VM} (h : Layout s) (op : Op) : Layout (step s op).1 := 
   | letv d v => exact layout_letStmt h d v
   | dim n dims => exact layout_allocate h n dims
   | swap a b => exact layout_swapStmt h a b
-  | erase n => exact layout_eraseStmt h n
+  | erase ns => exact layout_eraseList h ns
 
 theorem layout_run {s : VM} (h : Layout s) (ops : List Op) : Layout (run s ops) := by
   induction ops generalizing s with
@@ -994,6 +1004,16 @@ theorem strOK_eraseStmt {s : VM} (h : StrOK s) (name : Bytes) : StrOK (eraseStmt
     rw [e1] at hs; rw [e2] at hc
     exact h.ar a0 hm hs c hc
 
+theorem strOK_eraseList {s : VM} (h : StrOK s) (names : List Bytes) : StrOK (eraseList names s).state := by
+  induction names generalizing s with
+  | nil => exact h
+  | cons n r ih =>
+    have h1 := strOK_eraseStmt h n
+    simp only [eraseList]
+    cases he : eraseStmt n s with
+    | error x => rw [he] at h1; exact h1
+    | ok s1 => rw [he] at h1; exact ih h1
+
 theorem strOK_letStmt {s : VM} (hl : Layout s) (h : StrOK s) (d : Dst) (v : Val) : StrOK (letStmt d v s).state := by
   unfold letStmt
   have h1 := strOK_prealloc h d
@@ -1069,7 +1089,7 @@ theorem strOK_step {s : VM} (hl : Layout s) (h : StrOK s) (op : Op) : StrOK (ste
   | letv d v => exact strOK_letStmt hl h d v
   | dim n dims => exact strOK_allocate h n dims
   | swap a b => exact strOK_swapStmt h a b
-  | erase n => exact strOK_eraseStmt h n
+  | erase ns => exact strOK_eraseList h ns
 
 theorem strOK_run {s : VM} (hl : Layout s) (h : StrOK s) (ops : List Op) : StrOK (run s ops) := by
   induction ops generalizing s with
@@ -1139,6 +1159,71 @@ theorem derefCell_stable {s s' : VM} (h : StrOK s) {c : Bytes} (hc : PtrOK s.str
 
 theorem getElem?_of_mem_map {α β : Type} {l : List α} {k : Nat} {x : α} (f : α → β) (h : l[k]? = some x) :
     (l.map f)[k]? = some (f x) := by simp [h]
+
+
+/-! ### ERASE leaves the other arrays' contents alone -/
+
+/-- what a program can read of an array -/
+def coreA (a : ARec) : List Nat × List Bytes := (a.dims, a.cells)
+
+theorem findA_removeA_ne {n n' : Bytes} (hne : n' ≠ n) (l : List ARec) :
+    findA n' (removeA n l) = findA n' l := by
+  induction l with
+  | nil => rfl
+  | cons a rest ih =>
+    simp only [removeA]
+    by_cases ha : a.name = n
+    · have : ¬ a.name = n' := by rw [ha]; exact fun h => hne h.symm
+      simp only [ha, if_true, findA, this, if_false]
+      rw [ha] at this; simp only [this, if_false]
+    · simp only [ha, if_false, findA, ih]
+
+theorem findA_map_shift (n' : Bytes) (e k : Nat) (l : List ARec) :
+    (findA n' (l.map (shiftA e k))).map coreA = (findA n' l).map coreA := by
+  induction l with
+  | nil => rfl
+  | cons a rest ih =>
+    have hn : (shiftA e k a).name = a.name := by unfold shiftA; split <;> rfl
+    have hc : coreA (shiftA e k a) = coreA a := by unfold shiftA coreA; split <;> rfl
+    simp only [List.map_cons, findA, hn]
+    by_cases ha : a.name = n'
+    · simp [ha, hc]
+    · simp only [ha, if_false]; exact ih
+
+theorem eraseStmt_frame (n : Bytes) (s : VM) :
+    (eraseStmt n s).state.scalars = s.scalars ∧ (eraseStmt n s).state.base = s.base
+    ∧ (eraseStmt n s).state.strs = s.strs
+    ∧ ∀ n', n' ≠ n → (findA n' (eraseStmt n s).state.arrays).map coreA = (findA n' s.arrays).map coreA := by
+  unfold eraseStmt
+  cases hf : findA n s.arrays with
+  | none => simp [MR.state]
+  | some e =>
+    simp only [MR.state, true_and]
+    intro n' hne
+    rw [findA_map_shift, findA_removeA_ne hne]
+
+theorem eraseList_frame (names : List Bytes) (s : VM) :
+    (eraseList names s).state.scalars = s.scalars ∧ (eraseList names s).state.base = s.base
+    ∧ (eraseList names s).state.strs = s.strs
+    ∧ ∀ n', n' ∉ names → (findA n' (eraseList names s).state.arrays).map coreA = (findA n' s.arrays).map coreA := by
+  induction names generalizing s with
+  | nil => simp [eraseList, MR.state]
+  | cons n r ih =>
+    obtain ⟨f1, f2, f3, f4⟩ := eraseStmt_frame n s
+    simp only [eraseList]
+    cases he : eraseStmt n s with
+    | error x =>
+      rw [he] at f1 f2 f3 f4
+      exact ⟨f1, f2, f3, fun n' hn => f4 n' (fun h => hn (by simp [h]))⟩
+    | ok s1 =>
+      rw [he] at f1 f2 f3 f4
+      simp only [MR.state] at f1 f2 f3 f4
+      obtain ⟨g1, g2, g3, g4⟩ := ih s1
+      refine ⟨g1.trans f1, g2.trans f2, g3.trans f3, ?_⟩
+      intro n' hn
+      have h1 : n' ≠ n := fun h => hn (by simp [h])
+      have h2 : n' ∉ r := fun h => hn (by simp [h])
+      rw [g4 n' h2, f4 n' h1]
 
 
 end PcbV.VarMem
